@@ -135,12 +135,14 @@ func (q *TaskQueue) MeasureActionTime(action string) func() {
 
 func (q *TaskQueue) GetStatus() string {
 	defer q.MeasureActionTime("GetStatus")()
+	verifsched.Point("queue.lock.GetStatus", "lock:"+q.Name)
 	q.m.RLock()
 	defer q.m.RUnlock()
 	return q.Status
 }
 
 func (q *TaskQueue) SetStatus(status string) {
+	verifsched.Point("queue.lock.SetStatus", "lock:"+q.Name)
 	q.m.Lock()
 	q.Status = status
 	q.m.Unlock()
@@ -148,6 +150,7 @@ func (q *TaskQueue) SetStatus(status string) {
 
 func (q *TaskQueue) IsEmpty() bool {
 	defer q.MeasureActionTime("IsEmpty")()
+	verifsched.Point("queue.lock.IsEmpty", "lock:"+q.Name)
 	q.m.RLock()
 	defer q.m.RUnlock()
 	return q.isEmpty()
